@@ -1,10 +1,15 @@
 """C01: bulkhead never lets more than max_concurrent_calls into the inner service."""
 from bulkhead_common import *
 PROP = "C01"
-RULE = "random scripts (callers, polls in any order, cancellations at any point, advances hitting deadlines exactly, ok/err/panic/never inner outcomes) + all scripts up to a small length over 3 callers; non-trivial = some caller queued, timed out or panicked"
+RULE = ("random scripts (callers, polls in any order, cancellations at any point, advances hitting deadlines exactly, ok/err/panic/sync-panic/never inner outcomes; "
+        "caps 1..8 and the presets, max_wait none/zero/finite/huge/Duration::MAX, every builder route and handle kind) + all scripts up to a small length over 3 callers "
+        "+ fills beyond capacity + long sequential histories; non-trivial = some caller queued, timed out or panicked")
 
 
 def monitor(s, t):
+    """C01 and nothing else: at no observed instant are more than max_concurrent_calls requests inside the inner service.
+    Observed instants: after every event (the inner service's own in-flight counter) and at every start of an inner
+    call -- inside a poll or anywhere else -- (the count that call saw, itself included)."""
     d = decode(s, t)
     if d is None:
         return "malformed or panicking run: %s" % t[:10]
@@ -12,6 +17,6 @@ def monitor(s, t):
     for (e, o) in evt:
         if o[4] > cap:
             return "in-flight %d exceeds max_concurrent_calls %d after event %s" % (o[4], cap, e)
-        if o[1] and o[2] > cap:
-            return "inner service saw %d concurrent calls, cap %d" % (o[2], cap)
+        if o[2] > cap:
+            return "inner service saw %d concurrent calls, cap %d (event %s)" % (o[2], cap, e)
     return None
